@@ -619,6 +619,7 @@ def run(rep, tier):
     c19_audit.history_bound_rule(rep, u)
     c19_audit.lapped_advance_rule(rep, u)
     c19_audit.stale_drop_rule(rep, u)
+    c19_audit.near_index_rule(rep, u)
     nfn, total = memsafe.run_scope(rep, tier, us)
     rep.floor("functions analysed", nfn, 15)
     return driver.finish(
